@@ -119,7 +119,7 @@ def from_hists(r, hists4, hists3, k):
         entries = [script_entry(r, r.choice(hs), 4 if n4 else 3, byz) for _ in range(r.choice([3, 5, 8]))]
         out.append({"ev": "Cfg", "n": 4 if n4 else 3, "t": 3 if n4 else 2, "nv": r.choice([1, 2]),
                     "kind": r.choice(["attester", "attester", "all", "sync", "proposer"]), "mode": "mem",
-                    "secs": 14, "seed": r.randint(1, 10 ** 6), "spe": r.choice([1, 2, 4]), "diverge": r.choice([0, 2, 3]),
+                    "secs": 14, "seed": r.randint(1, 10 ** 6), "spe": r.choice([2, 4, 8]), "diverge": r.choice([0, 2, 3]),
                     "byz": byz, "exverify": r.random() < 0.6, "maxdelay": r.choice([0, 50, 300]), "script": entries})
     return out
 
@@ -131,13 +131,14 @@ def random_profiles(r, k):
         s = {"ev": "Cfg", "n": n, "t": (2 * n + 2) // 3, "nv": r.choice([1, 2, 2]),
              "kind": r.choice(["attester", "attester", "all", "all", "proposer", "sync"]),
              "mode": r.choice(["mem", "mem", "p2p"]), "secs": r.choice([12, 14, 16]), "seed": r.randint(1, 10 ** 6),
-             "spe": r.choice([1, 2, 2, 4]), "diverge": r.choice([0, 2, 2, 3, n])}
+             "spe": r.choice([2, 2, 4, 8]), "diverge": r.choice([0, 2, 2, 3, n])}
         if s["mode"] == "mem":
             s.update({"exverify": r.random() < 0.7, "drop": r.choice([0, 0, 0.1, 0.3]), "dup": r.choice([0, 0.2, 0.5]),
                       "maxdelay": r.choice([0, 30, 200, 700]), "failp": r.choice([0, 0, 0.3, 0.7])})
             if r.random() < 0.2:
                 a = r.randint(1, n)
                 s["cut"] = [[a, a % n + 1]]
+        s["bnfailp"] = r.choice([0, 0, 0.3, 0.6])
         if n == 4 and r.random() < 0.7:
             s["byz"] = r.randint(1, 4)
             s["byzvc"] = r.choice(["", "", "otherdata", "badsig"])
@@ -158,8 +159,8 @@ def fixed_profiles(seed):
     b = seed * 100
     return [
         {"ev": "Cfg", "n": 4, "t": 3, "nv": 2, "kind": "all", "mode": "mem", "secs": 16, "seed": b + 1, "spe": 2, "diverge": 3,
-         "maxdelay": 200, "dup": 0.3, "drop": 0.1},
-        {"ev": "Cfg", "n": 4, "t": 3, "nv": 2, "kind": "attester", "mode": "mem", "secs": 14, "seed": b + 2, "spe": 1, "diverge": 2,
+         "maxdelay": 200, "dup": 0.3, "drop": 0.1, "bnfailp": 0.4, "failp": 0.3},
+        {"ev": "Cfg", "n": 4, "t": 3, "nv": 2, "kind": "attester", "mode": "mem", "secs": 14, "seed": b + 2, "spe": 2, "diverge": 2,
          "byz": 4, "inject": INJECT, "injectp": 0.9},
         {"ev": "Cfg", "n": 4, "t": 3, "nv": 1, "kind": "attester", "mode": "p2p", "secs": 14, "seed": b + 3, "spe": 2, "diverge": 2,
          "byz": 2, "inject": INJECT, "injectp": 0.9},
@@ -209,14 +210,24 @@ def run_one(o, sched, name):
     with open(lp, "w") as fo:
         p = subprocess.run(["timeout", "-s", "KILL", str(budget), build(o), "-test.run", "^TestExec$", "-test.count=1",
                             "-test.timeout", "%ds" % (budget - 10)], cwd=w, env=env, stdout=fo, stderr=subprocess.STDOUT)
-    if p.returncode != 0 or not os.path.exists(tp):
+    evs = []
+    if os.path.exists(tp):
+        for line in open(tp, errors="replace"):
+            try:
+                evs.append(json.loads(line))
+            except ValueError:          # the process died while writing this line
+                break
+    crashed = p.returncode != 0 or not any(e.get("ev") == "End" for e in evs)   # (returns still arrive while the nodes shut down)
+    if crashed and len(evs) < 2:
         tail = open(lp, errors="replace").read()[-3000:]
         raise vlib.Infra("cluster run %s failed (rc=%s):\n%s" % (name, p.returncode, tail))
-    tr = vlib.split_traces(vlib.read_ndjson(tp))
-    if len(tr) != 1:
-        raise vlib.Infra("cluster run %s: %d traces" % (name, len(tr)))
-    os.remove(lp)
-    return tr[0]
+    if crashed:
+        # the log is streamed: what was observed before the process died is validated as far as it goes; the Crash event
+        # itself matches no spec step and is reported as infrastructure trouble, not as a violation
+        evs.append({"ev": "Crash", "rc": p.returncode, "log": open(lp, errors="replace").read()[-1500:]})
+    else:
+        os.remove(lp)
+    return evs
 
 
 def run_batch(o, scheds, tag):
@@ -255,7 +266,8 @@ def stats(t):
             "duties_broadcast_by_every_node": sum(1 for d in duties if len(bc[d]) == r["n"]),
             "broadcasts_by_type": dict(types), "duties_with_diverging_candidates": sum(1 for d in att if len(att[d]) > 1),
             "byzantine_messages": dict(byz), "unverifiable_partials_stored": bad, "errors_returned": dict(errs),
-            "exchange_attempts_failed": c["ExFail"], "stopped": c["Stop"]}
+            "exchange_attempts_failed": c["ExFail"], "beacon_submissions": c["BNSub"],
+            "beacon_submissions_refused_and_retried": c["BNFail"], "stopped": c["Stop"]}
 
 
 def conformance(o, scheds, tag):
@@ -263,14 +275,25 @@ def conformance(o, scheds, tag):
     if not scheds:
         return []
     traces, wall = run_batch(o, scheds, tag)
-    # a run in which nothing at all completes says nothing: once more, then infrastructure
-    for i, t in enumerate(traces):
-        if not any(e["ev"] == "BcC" for e in t):
-            log("[%s] %s/%d: no broadcast at all, running it again" % (o.pid, tag, i))
-            traces[i] = run_one(o, scheds[i], "%s_%d_again" % (tag, i))
-            if not any(e["ev"] == "BcC" for e in traces[i]):
-                raise vlib.Infra("cluster run %s/%d completed no duty at all (twice): %s" % (tag, i, json.dumps(scheds[i])[:600]))
     v = vlib.validate_traces(o.pid, FAMILY, TRACE, cfg_of, traces, timeout=900, chunk=4)
+    # an ACCEPTED run in which nothing at all completed says nothing: once more, then infrastructure
+    for i in v.accepted:
+        if not any(e["ev"] == "BcC" for e in traces[i]):
+            log("[%s] %s/%d: no broadcast at all, running it again" % (o.pid, tag, i))
+            again = run_one(o, scheds[i], "%s_%d_again" % (tag, i))
+            va = vlib.validate_traces(o.pid, FAMILY, TRACE, cfg_of, [again], timeout=900)
+            if va.rejected:
+                traces[i] = again
+                v.accepted.remove(i)
+                v.rejected.append((i, va.rejected[0][1], va.rejected[0][2]))
+            elif not any(e["ev"] == "BcC" for e in again):
+                raise vlib.Infra("cluster run %s/%d completed no duty at all (twice): %s" % (tag, i, json.dumps(scheds[i])[:600]))
+            else:
+                traces[i] = again
+    for (ti, pos, reason) in v.rejected:
+        if pos < len(traces[ti]) and traces[ti][pos].get("ev") == "Crash":
+            raise vlib.Infra("cluster run %s/%d: the executor process died (rc=%s) after %d events that the specification accepts:\n%s"
+                             % (tag, ti, traces[ti][pos].get("rc"), pos, traces[ti][pos].get("log")))
     o.schedules += len(scheds)
     o.traces += len(traces)
     o.trace_events += sum(len(t) for t in traces)
@@ -289,8 +312,9 @@ def conformance(o, scheds, tag):
         for rnd in range(2):
             again, _ = run_batch(o, [dict(sched) for _ in range(4)], "%s_re%d_%d" % (tag, ti, rnd))
             v2 = vlib.validate_traces(o.pid, FAMILY, TRACE, cfg_of, again, timeout=900, chunk=4)
-            if v2.rejected:
-                k, p2, why2 = v2.rejected[0]
+            real = [x for x in v2.rejected if again[x[0]][x[1]].get("ev") != "Crash"]
+            if real:
+                k, p2, why2 = real[0]
                 rep = (again[k], p2, why2)
                 break
         first = {"property": o.pid, "family": FAMILY, "trace_module": TRACE, "pkg": PKG, "schedule": sched,
@@ -305,6 +329,7 @@ def conformance(o, scheds, tag):
         path = vlib.save_replay(o.pid, "%s_%s_%d" % (FAMILY, tag, ti), first)
         o.violations.append((path, "%s: %s at event %d: %s (reproduced: %s)" % (FAMILY, reason, pos,
                                                                                json.dumps(traces[ti][pos])[:300], breason)))
+        break       # one reproduced rejection is the verdict; every re-execution costs a cluster run
     if unrepro and not o.violations:
         u = unrepro[0]
         raise vlib.Infra("%d rejected cluster run(s) did not reproduce in 8 re-executions (first: run %d, %s at event %d; recorded "
@@ -481,7 +506,14 @@ def mutators():
         t.insert(k, ev)
         return t
 
-    return [("a node broadcasts another root", bc_root), ("DutyDB handed a value nobody proposed", store_value),
+    def bn_other_root(t):    # the beacon node receives an object the Broadcaster was not handed
+        k = first(t, lambda e: e["ev"] == "BNSub" and e["set"])
+        if k is None:
+            return None
+        t[k]["set"][0]["r"] = "feedfeedfeed"
+        return t
+
+    return [("a node broadcasts another root", bc_root), ("beacon node receives another root than the Broadcaster got", bn_other_root), ("DutyDB handed a value nobody proposed", store_value),
             ("DutyDB handed another node's proposal than the others", store_disagree),
             ("validator client served data the DutyDB never got", served_other),
             ("honest validator client signs unserved data", signed_unserved),
@@ -547,7 +579,8 @@ def stage(o, tier, seed):
     rnd = fixed_profiles(seed) + random_profiles(r, 40 if thorough else 3)
     o.extra["workflow_fault_plans_from_tlc_histories"] = len(gen)
     ok = conformance(o, gen, "gen")
-    ok += conformance(o, rnd, "rnd")
+    if not o.violations:
+        ok += conformance(o, rnd, "rnd")
     join_design()
     if not o.violations:
         ms = mutators()
